@@ -52,9 +52,10 @@ func (l *ListLayout) Sep(i int, prev, next string) string {
 // reference lexer (the asset rule [A-Z/0-9]+ then swallows the comment's first slash).
 // With Pad set, a blank is written before such a comment instead.
 type GlueLayout struct {
-	Seps  []string
-	Pad   bool
-	Glued int
+	Seps       []string
+	Pad        bool
+	Glued      int
+	StringCase int
 }
 
 func endsInAssetChar(tok string) bool {
@@ -77,6 +78,16 @@ func (l *GlueLayout) Sep(i int, prev, next string) string {
 			return " " + cand
 		}
 		return cand
+	}
+	// a comment containing a quote, on the same line as a string that ends in a backslash:
+	// the string rule reads \" as an escaped quote and runs on to the comment's quote
+	if isComment && len(prev) >= 3 && prev[0] == '"' && prev[len(prev)-2] == '\\' && strings.Contains(cand, "\"") && next != "" && SepOK(prev, "\n"+cand, next) {
+		l.Glued++
+		l.StringCase++
+		if l.Pad {
+			return "\n" + cand
+		}
+		return " " + cand
 	}
 	if SepOK(prev, cand, next) {
 		return cand
